@@ -5,10 +5,12 @@ package c08
 
 import (
 	"bytes"
+	"encoding/base64"
 	"encoding/json"
 	"fmt"
 	"os"
 	"reflect"
+	"strings"
 	"testing"
 
 	"github.com/brocaar/lorawan"
@@ -73,6 +75,12 @@ func judgeAfter(in, prev []byte) (bool, string) {
 		if out2, err := q.MarshalBinary(); err != nil || !bytes.Equal(out2, in) {
 			return true, fmt.Sprintf("decoding the re-encoding of %x and encoding again gives %x (err %v)", in, out2, err)
 		}
+	}
+	// the decoded frame is queued by value and its variable receives the next frame: the queued value still re-encodes to the input
+	queued := p
+	_ = p.UnmarshalBinary(gen.Decoy(in))
+	if qb, err := queued.MarshalBinary(); err != nil || !bytes.Equal(qb, in) {
+		return true, fmt.Sprintf("the frame decoded from %x was kept by value while the same variable decoded %x: the kept value now re-encodes to %x (err %v)", in, gen.Decoy(in), qb, err)
 	}
 	// the forwarded bytes stay what they are while the next frame is handled
 	var o lorawan.PHYPayload
@@ -196,6 +204,62 @@ func genCanon(t *rapid.T) canonCase {
 	return c
 }
 
+// ---- the text door: a frame received as base64 text is the frame its bytes stand for ----
+
+type textCase struct {
+	Text string `json:"text"`
+	How  string `json:"how"`
+}
+
+const hexAlphabet = "0123456789abcdefABCDEF"
+
+func genText(t *rapid.T) textCase {
+	how := rapid.SampledFrom([]string{"frame", "frame", "hex-alphabet", "digits", "letters"}).Draw(t, "how")
+	if how == "frame" {
+		c := genCanon(t)
+		return textCase{Text: base64.StdEncoding.EncodeToString(c.Bytes), How: how + "/" + c.How}
+	}
+	// base64 texts that could be mistaken for another notation: only hexadecimal digits / only decimal digits / only
+	// letters, no padding (4k characters). The first character keeps the reserved MHDR bits zero.
+	alpha := map[string]string{"hex-alphabet": hexAlphabet, "digits": "0123456789", "letters": "ABCDEFabcdefghijklmnopqrstuvwxyz"}[how]
+	first := map[string]string{"hex-alphabet": "A4", "digits": "4", "letters": "AIQYgow"}[how]
+	n := 4 * rapid.IntRange(2, 24).Draw(t, "groups")
+	b := []byte{first[rapid.IntRange(0, len(first)-1).Draw(t, "c0")]}
+	for len(b) < n {
+		b = append(b, alpha[rapid.IntRange(0, len(alpha)-1).Draw(t, "c")])
+	}
+	return textCase{Text: string(b), How: how}
+}
+
+func checkText(c textCase) evid.Outcome {
+	raw, err := base64.StdEncoding.DecodeString(c.Text)
+	if err != nil || len(raw) > 0 && raw[0]&0x1c != 0 {
+		return evid.Outcome{Skip: true} // not base64 / reserved MHDR bits set: outside the property
+	}
+	var viaBin, viaText lorawan.PHYPayload
+	errBin := viaBin.UnmarshalBinary(append([]byte{}, raw...))
+	errText := viaText.UnmarshalText([]byte(c.Text))
+	cls := fmt.Sprintf("%s/accepted=%v", c.How, errText == nil)
+	if (errBin == nil) != (errText == nil) {
+		return evid.Outcome{Violation: fmt.Sprintf("the text %q is base64 for %x: UnmarshalBinary of the bytes answers %v, UnmarshalText of the text %v - the two doors disagree on whether this is a frame", c.Text, raw, errBin, errText), Class: cls}
+	}
+	if errText != nil {
+		return evid.Outcome{Class: cls}
+	}
+	out, err := viaText.MarshalBinary()
+	if err != nil || !bytes.Equal(out, raw) {
+		o := evid.Outcome{Violation: fmt.Sprintf("the frame received as text %q (= %x) re-encodes to %x (err %v)", c.Text, raw, out, err), Class: cls}
+		if inK1(raw) {
+			o.Known = "K1"
+		}
+		return o
+	}
+	if txt, err := viaText.MarshalText(); err != nil || string(txt) != base64.StdEncoding.EncodeToString(raw) {
+		return evid.Outcome{Violation: fmt.Sprintf("the frame received as text %q re-encodes to the text %q (err %v), want %q", c.Text, txt, err, base64.StdEncoding.EncodeToString(raw)), Class: cls}
+	}
+	return evid.Outcome{NonTrivial: !strings.HasPrefix(c.How, "frame/valid"), Class: cls, Key: []byte(c.Text)}
+}
+
 func minInt(a, b int) int {
 	if a < b {
 		return a
@@ -210,6 +274,10 @@ func TestProp(t *testing.T) {
 	evid.Rapid(r, t, "canonical",
 		"rapid: byte strings of length 0..256 with the reserved MHDR bits zero: uniform random; uniform at the lengths the fixed-size message types accept; and structure-aware mutations of valid frames of all 8 MTypes (unchanged, truncated front/back, extended, one bit flipped, FOptsLen nibble overwritten, rejoin type byte overwritten, two frames spliced, FPort byte zeroed with/without cutting the payload, MType overwritten). Oracle: if UnmarshalBinary accepts b then MarshalBinary succeeds and returns exactly b, and decoding that again gives a deeply equal frame; nothing is asserted about rejected inputs; a third of the cases decode into a PHYPayload variable that decoded another valid frame before (a receive loop reusing its variable), with the same oracle. Known finding K1 (FOptsLen>0, FPort byte 0, empty FRMPayload: accepted but not encodable) is excluded by a predicate on the input bytes and counted. Non-trivial: an accepted input that is not an unmodified encoder-model output.",
 		400000, 16000000, genCanon, checkCanon)
+
+	evid.Rapid(r, t, "text-door",
+		"rapid: base64 texts - of the byte strings of sub-check canonical (2/5), and texts of 8..96 characters without padding drawn only from the hexadecimal digits, only from the decimal digits, or only from letters (first character chosen so that the reserved MHDR bits are zero), i.e. base64 that could be mistaken for another notation. Oracle: UnmarshalText accepts the text exactly when UnmarshalBinary accepts the bytes the text stands for (standard base64 decoder of the Go library); an accepted frame re-encodes to exactly those bytes and to their canonical base64 text. Non-trivial: accepted and not an unmodified valid frame.",
+		60000, 3000000, genText, checkText)
 
 	// the committed fuzz corpus is replayed in both tiers (the fuzz engine itself runs in the thorough tier only)
 	evid.RunManual(r, t, "corpus-replay", "exhaustive",
